@@ -21,9 +21,14 @@ SeedClasses == {0, 1, 2, 3, 4, W - 2, W - 1}
 \*   and finish in an order that differs from their index order
 Scenarios ==
   {x \in [kind : {"MH", "Gibbs", "HMC", "NUTS"}, n : {1, 2, 3, 5, 40, 600}, seed : SeedClasses,
-           threads : {1, 2, 4, 16}, concurrent : {"none", "same", "hmc"}, progress : {FALSE, TRUE}, second : {FALSE, TRUE}] :
-      x.n <= 5 \/ (x.kind = "HMC" /\ x.n = 600 /\ x.concurrent = "none")
-      \/ (x.kind \in {"MH", "Gibbs"} /\ x.n = 40 /\ x.concurrent = "none")}
+           threads : {1, 2, 4, 16}, concurrent : {"none", "same", "hmc"}, progress : {FALSE, TRUE}, second : {FALSE, TRUE},
+           pre : BOOLEAN] :
+      /\ x.n <= 5 \/ (x.kind = "HMC" /\ x.n = 600 /\ x.concurrent = "none")
+         \/ (x.kind \in {"MH", "Gibbs"} /\ x.n = 40 /\ x.concurrent = "none")
+      \* pre: the sampler is used (an unseeded run) BEFORE it is seeded and put back on its start through its public fields;
+      \* Closed(kind, n, seed) has no history argument -- seeding resets every stream the sampler owns, at any moment of its
+      \* life.  (Not NUTS: its adaptation state is not a function of the seed.)
+      /\ x.pre => (x.kind # "NUTS" /\ x.n <= 3 /\ x.threads = 1 /\ x.concurrent = "none" /\ ~x.second)}
 Init == /\ sc = [kind |-> "none"]
         /\ kind = <<>> /\ n = <<>> /\ sigma = <<>> /\ acc = <<>> /\ prop = <<>> /\ done = <<>> /\ out = <<>>
         /\ gpos = 0 /\ fresh = 0 /\ phase = <<>> /\ used = <<>>
@@ -31,6 +36,6 @@ Next == /\ sc.kind = "none" /\ sc' \in Scenarios
         /\ UNCHANGED <<kind, n, sigma, acc, prop, done, out, gpos, fresh, phase, used>>
 Emit == sc.kind # "none" =>
   PrintT(<<"REPLAY", ToJson([kind |-> sc.kind, n |-> sc.n, seed |-> SeedName(sc.seed), threads |-> sc.threads,
-      concurrent |-> sc.concurrent, progress |-> sc.progress, second |-> sc.second,
+      concurrent |-> sc.concurrent, progress |-> sc.progress, second |-> sc.second, pre |-> sc.pre,
       expect |-> ToJson(S!Closed(sc.kind, sc.n, sc.seed))])>>)
 =============================================================================
